@@ -186,7 +186,8 @@ def WellFormed (cfg : Config) (ss : Session) (c : Nat) (r : Request) : Prop :=
    | .announce => r.ct = 1 ∧ r.sdpOk = true ∧ 0 < r.nAnn ∧ r.hStatus = 200
    | .setup => ∃ ts t i, r.trs = some ts ∧ pickTransport cfg ts = some t ∧ setupChecks ss r t = none ∧
         r.hStatus = 200 ∧ r.track = some i ∧ i ∉ ss.medias ∧
-        (if ss.state = .preRecord then r.path = ss.path ∧ i < ss.nAnn else i < cfg.nMedias)
+        (if ss.state = .preRecord then r.path = ss.path ∧ i < ss.nAnn else i < cfg.nMedias) ∧
+        ¬ (ss.state = .initial ∧ t.proto = .udp ∧ r.portBusy = true)
    | .play => (ss.state = .prePlay → r.path = ss.path) ∧ r.hStatus = 200
    | .record => ss.medias.length = ss.nAnn ∧ r.path = ss.path ∧ r.hStatus = 200
    | .pause => r.hStatus = 200
@@ -209,16 +210,21 @@ theorem wellformed_ok (cfg : Config) (ss : Session) (c : Nat) (r : Request)
     unfold doAnnounce
     have : r.nAnn ≠ 0 := by omega
     cases hs : ss.state <;> simp_all
-  · obtain ⟨ts, t, i, h1, h2, h3, h4, h5, h6, h7⟩ := hw
+  · obtain ⟨ts, t, i, h1, h2, h3, h4, h5, h6, h7, h8⟩ := hw
     unfold doSetup
     have : (!(ss.state == .initial || ss.state == .prePlay || ss.state == .preRecord)) = false := by
       rw [hl]; rfl
     simp only [this, Bool.false_eq_true, if_false, h1, h2, h3, h4]
     unfold setupMedia
     simp only [h5]
+    have hnb : ¬ ((ss.state = .initial ∧ t.proto = .udp) ∧ r.portBusy = true) := by
+      rintro ⟨⟨a, b⟩, c⟩; exact h8 ⟨a, b, c⟩
     by_cases hr : ss.state = .preRecord
     · simp_all [mediaFound]
     · simp_all [mediaFound]
+      rw [if_neg]
+      rintro ⟨⟨a, b⟩, c⟩
+      simp [h8 a b] at c
   · obtain ⟨h1, h2⟩ := hw
     unfold doPlay
     cases hs : ss.state <;> simp_all <;> (repeat' split) <;> simp_all
